@@ -44,11 +44,40 @@ def gen_program_source(rng):
     return A.program_src(g.program())
 
 
+UNI_SPACES = [" ", "\t", "\u00a0", "\u0085", "\u1680", "\u2003", "\u2028", "\u202f", "\u3000", "\ufeff", "\u200b"]
+STRING_PIECES = ["\\\n", "\\\r\n", "\\n", "\\t", "\\\\", "\\\"", "\\'", "\\0", "\\{", "\\}", "\\{{", "\\}}", "{{", "}}",
+                 "{{ x }}", "{{x}}", "\\u{1F600}", "\\u{E9}", "\\u{}", "\\u{110000}", "\\u{D800}", "\\u{41", "\\u", "\\x41",
+                 "\\", "\n", "é", "😀", "\u0301"]
+
+
+def string_piece(rng):
+    """Text to put inside a string literal: escapes, line continuations followed by (exotic)
+    indentation, template braces, non-ASCII text — in combinations."""
+    out = []
+    for _ in range(rng.choice([1, 1, 2, 3])):
+        pc = rng.choice(STRING_PIECES)
+        out.append(pc)
+        if pc.endswith("\n") and rng.random() < 0.8:
+            out.append("".join(rng.choice(UNI_SPACES) for _ in range(rng.randint(0, 3))))
+        if rng.random() < 0.4:
+            out.append(rng.choice(["a", "bar", "é", "日本", " ", rng.choice(UNI_SPACES)]))
+    return "".join(out)
+
+
 def mutate(rng, src, n=None):
     n = n if n is not None else rng.choice([1, 1, 1, 2, 2, 3, 5])
     for _ in range(n):
         r = rng.random()
-        if r < 0.25:
+        if r < 0.10:
+            # inside (or as) a string literal / template / regex / timestamp literal
+            quotes = [i for i, c in enumerate(src) if c in "\"'"]
+            if quotes and rng.random() < 0.85:
+                i = rng.choice(quotes) + 1
+                src = src[:i] + string_piece(rng) + src[i:]
+            else:
+                i = rng.randrange(len(src) + 1)
+                src = src[:i] + rng.choice(['"', "s'", "r'", "t'"]) + string_piece(rng) + rng.choice(['"', "'"]) + src[i:]
+        elif r < 0.28:
             src = sa.mutate_source(rng, src)
         elif r < 0.45:
             i = rng.randrange(len(src) + 1)
